@@ -385,6 +385,23 @@ type Built struct {
 	Value       interface{}
 	Leaves      []Leaf
 	IgnoreTypes []reflect.Type
+	MustFail    string // non-empty: Process has to return an error for this payload (reason)
+}
+
+// hasBadPointer: a Taggable with a bad tag pointer that Process actually reaches (nothing nil or ignored above it).
+func hasBadPointer(s *Shape) bool {
+	if s == nil || s.Nil || s.Ign || ((s.K == KStructs || s.K == KPStrcts) && s.N == 0) {
+		return false
+	}
+	if s.BadPointer {
+		return true
+	}
+	for _, k := range s.Kids {
+		if hasBadPointer(k) {
+			return true
+		}
+	}
+	return false
 }
 
 // Build materialises the payload. Calling it twice gives non-aliased twins.
@@ -450,5 +467,9 @@ func Build(p Payload, cfg Cfg) Built {
 	for t := range b.ignored {
 		its = append(its, t)
 	}
-	return Built{Value: val, Leaves: b.leaves, IgnoreTypes: its}
+	out := Built{Value: val, Leaves: b.leaves, IgnoreTypes: its}
+	if p.Top != TNil && p.Top != TTypedNil && p.Top != TZero && p.Top != TStruct && hasBadPointer(p.Root) {
+		out.MustFail = "a Taggable's tag points at a list element that does not exist (bad tag pointer)"
+	}
+	return out
 }
